@@ -1,14 +1,39 @@
 /-
   C13 — deep_equal is canonical-form equivalence; its variants relax it as documented.
-  Property theorems only (helper lemmas: `XotModel/Lemmas/Compare.lean`).
+  Property theorems only (helper lemmas: `XotModel/Lemmas/Compare*.lean`).
+
+  `Tree.valid` is the structural hypothesis: at every node the children come as namespaces,
+  attributes, normal nodes; attribute names are unique per node; attribute / namespace nodes
+  are leaves.  A name id stands for the expanded name (interning is one-to-one, C08).
 -/
-import XotModel.Model.Compare
+import XotModel.Lemmas.CompareCanon
 
 namespace XotModel.Props
 open XotModel
 
-/-- Defect (DESIGN.md §8 row 15): two attribute nodes with different values are `deep_equal`:
-    the normal-filtered edge streams of both are empty. -/
+/-! ### deep_equal ⇔ equal canonical forms -/
+
+/-- The full-strength statement: for all structurally valid subtrees, whatever their kind. -/
+def C13_iff_Statement : Prop :=
+  ∀ a b : Tree, a.valid = true → b.valid = true → (deepEqual a b = true ↔ canon a = canon b)
+
+/-- For normal nodes (document, element, text, comment, PI) `deep_equal` holds exactly when the
+    canonical forms are equal. -/
+theorem C13_iff (a b : Tree) (va : a.valid = true) (vb : b.valid = true)
+    (na : a.value.isNormal = true) (nb : b.value.isNormal = true) :
+    deepEqual a b = true ↔ canon a = canon b := by
+  unfold deepEqual
+  rw [advancedDeepEqual_eq]
+  exact deepIffCanon a b va vb na nb
+
+/-- The same theorem under the name the defect boundary asks for: the extra hypothesis
+    "both nodes are normal" is exactly where `C13_iff_Statement` fails. -/
+theorem C13_iff_partial (a b : Tree) (va : a.valid = true) (vb : b.valid = true)
+    (na : a.value.isNormal = true) (nb : b.value.isNormal = true) :
+    deepEqual a b = true ↔ canon a = canon b := C13_iff a b va vb na nb
+
+/-- Defect (DESIGN.md §8 row 15): two attribute nodes with different names and values are
+    `deep_equal`, because the normal-filtered edge streams of both are empty. -/
 theorem C13_iff_fails_on_attribute_nodes :
     deepEqual (.node (.attribute 3 ['v']) []) (.node (.attribute 4 ['w']) []) = true ∧
     canon (.node (.attribute 3 ['v']) []) ≠ canon (.node (.attribute 4 ['w']) []) := by
@@ -16,10 +41,61 @@ theorem C13_iff_fails_on_attribute_nodes :
   · decide
   · intro h; cases h
 
-/-- Defect: a name repeated in the ignore list is counted twice in `b_ignore_attributes`;
-    `<a/>` vs `<a b="v"/>` ignoring `[b, b]` gives `0 == 1 - 2` on `usize`, i.e. `false`. -/
-theorem C13_shallow_fails_on_repeated_ignore :
-    shallowEqualIgnoreAttributes (.node (.element 2) []) (.node (.element 2) [.node (.attribute 3 ['v']) []]) [3, 3] = false := by
-  decide
+theorem C13_iff_Statement_false : ¬ C13_iff_Statement := by
+  intro h
+  have := (h (.node (.attribute 3 ['v']) []) (.node (.attribute 4 ['w']) []) (by decide) (by decide)).mp
+    C13_iff_fails_on_attribute_nodes.1
+  exact C13_iff_fails_on_attribute_nodes.2 this
+
+/-- What the code does outside the boundary: any two attribute / namespace nodes are equal … -/
+theorem C13_abnormal_always_equal (a b : Tree) (va : a.valid = true) (vb : b.valid = true)
+    (na : ¬ a.value.isNormal = true) (nb : ¬ b.value.isNormal = true) : deepEqual a b = true := by
+  unfold deepEqual
+  rw [advancedDeepEqual_eq]
+  show forestEqv strEq (proj allF a) (proj allF b) = true
+  rw [proj_allF_abnormal va na, proj_allF_abnormal vb nb]; rfl
+
+/-- … and never equal to a normal node. -/
+theorem C13_abnormal_vs_normal (a b : Tree) (va : a.valid = true)
+    (na : ¬ a.value.isNormal = true) (nb : b.value.isNormal = true) :
+    deepEqual a b = false ∧ deepEqual b a = false := by
+  unfold deepEqual
+  rw [advancedDeepEqual_eq, advancedDeepEqual_eq]
+  show forestEqv strEq (proj allF a) (proj allF b) = false ∧ forestEqv strEq (proj allF b) (proj allF a) = false
+  rw [proj_allF_abnormal va na, proj_allF_normal nb]
+  exact ⟨rfl, rfl⟩
+
+/-! ### Equivalence relation -/
+
+theorem C13_reflexive (a : Tree) (va : a.valid = true) (na : a.value.isNormal = true) :
+    deepEqual a a = true := (C13_iff a a va va na na).mpr rfl
+
+theorem C13_symmetric (a b : Tree) (va : a.valid = true) (vb : b.valid = true)
+    (na : a.value.isNormal = true) (nb : b.value.isNormal = true) :
+    deepEqual a b = deepEqual b a := by
+  have h1 := C13_iff a b va vb na nb
+  have h2 := C13_iff b a vb va nb na
+  cases hab : deepEqual a b <;> cases hba : deepEqual b a <;> simp_all
+
+theorem C13_transitive (a b c : Tree) (va : a.valid = true) (vb : b.valid = true) (vc : c.valid = true)
+    (na : a.value.isNormal = true) (nb : b.value.isNormal = true) (nc : c.value.isNormal = true)
+    (hab : deepEqual a b = true) (hbc : deepEqual b c = true) : deepEqual a c = true :=
+  (C13_iff a c va vc na nc).mpr
+    (((C13_iff a b va vb na nb).mp hab).trans ((C13_iff b c vb vc nb nc).mp hbc))
+
+/-! ### The filtered / custom comparison -/
+
+/-- `advanced_deep_equal(a, b, filter, cmp)`, for all trees, filters and comparisons, is
+    structural equality (`compareValue cmp` node by node) of the forests of kept nodes, children
+    of dropped nodes hoisted in place (`proj`). -/
+theorem C13_advanced (f : NodeFilter) (cmp : TextCmp) (a b : Tree) :
+    advancedDeepEqual f cmp a b = forestEqv cmp (proj f a) (proj f b) := advancedDeepEqual_eq f cmp a b
+
+/-- Non-vacuity: a valid pair of elements differing in prefixes, declarations and attribute order. -/
+example :
+    deepEqual (.node (.element 6) [.node (.namespace 2 2) [], .node (.attribute 3 ['v']) [], .node (.attribute 4 []) [],
+                                   .node (.text ['x']) []])
+              (.node (.element 6) [.node (.attribute 4 []) [], .node (.attribute 3 ['v']) [], .node (.text ['x']) []]) = true :=
+  (C13_iff _ _ (by decide) (by decide) (by decide) (by decide)).mpr rfl
 
 end XotModel.Props
